@@ -760,6 +760,8 @@ def _process(ctx, cases, search=True):
             ctx.violate(sig, _what(sc, sig, what), sc)
     if search and len(ctx.disagreements) > ndis0:
         _search(ctx, [d['case'] for d in ctx.disagreements[ndis0:ndis0 + 3]])
+        if not ctx.violations:
+            _search_cells(ctx, ctx.disagreements[ndis0:ndis0 + 40])
 
 
 def _ratio_bin(x):
@@ -787,6 +789,59 @@ def _search(ctx, seeds):
     seen = {v['signature'] for v in ctx.violations}
     for c, ev in zip(extra, evs):
         ctx.count('search-cases')
+        for sig, what in ev['viol']:
+            if sig not in seen:
+                seen.add(sig)
+                sc = _shrink(c, sig)
+                ctx.violate(sig, _what(sc, sig, what), sc)
+
+
+def _search_cells(ctx, dis):
+    """failing-input search for a cell-assignment shortfall: the model (whose margins are PROVED sufficient) stores second-list
+    point q in cell (i, j), the real getbounds/assign does not.  A first-list point p placed inside that cell within the match
+    length of q is a pair the real spherematch then cannot find.  Candidates are evaluated by the ordinary oracle on the real
+    code, so a candidate that does not fail is simply dropped."""
+    extra = []
+    for d in dis:
+        if d.get('stream') != 'grid:chunkList' or not isinstance(d.get('case'), dict):
+            continue
+        c, icl, mcl = d['case'], d['impl'], d['model']
+        try:
+            ch = _grid_of(c)
+        except Exception:
+            continue
+        todo = []
+        for i in range(min(len(icl), len(mcl))):
+            for j in range(min(len(icl[i]), len(mcl[i]))):
+                for q in mcl[i][j]:
+                    if q not in icl[i][j]:
+                        todo.append((i, j, q))
+        for i, j, q in todo[:12]:
+            try:
+                dlo, dhi = float(ch.decBounds[i]), float(ch.decBounds[i + 1])
+                rlo, rhi = float(ch.raBounds[i][j]), float(ch.raBounds[i][j + 1])
+            except Exception:
+                continue
+            t = np.linspace(1e-6, 1 - 1e-6, 41)
+            gd = np.clip(dlo + (dhi - dlo) * t, -89.9999, 89.9999)
+            gr = np.fmod(rlo + (rhi - rlo) * t - float(ch.raOffset) + 720.0, 360.0)
+            R, D = np.meshgrid(gr, gd)
+            S = np.asarray(_sepmat(R.ravel(), D.ravel(), [c['ra2'][q]], [c['dec2'][q]]), dtype='d')[:, 0]
+            for k in np.argsort(S)[:2]:
+                if S[k] < c['ml'] * (1 - 1e-7):
+                    e = dict(c, kind='search-cell', mm=0)
+                    e['ra1'] = list(c['ra1']) + [float(R.ravel()[k])]
+                    e['dec1'] = list(c['dec1']) + [float(D.ravel()[k])]
+                    extra.append(e)
+        if len(extra) >= 24:
+            break
+    if not extra:
+        return
+    with _pool() as pool:
+        evs = pool.map(_eval, extra, chunksize=2)
+    seen = {v['signature'] for v in ctx.violations}
+    for c, ev in zip(extra, evs):
+        ctx.count('search-cell-cases')
         for sig, what in ev['viol']:
             if sig not in seen:
                 seen.add(sig)
